@@ -33,6 +33,8 @@ type connInfo struct {
 	asyncIssued   [][]byte // payloads of asynchronous writes with callback, in issue order
 	asyncDone     int
 	untracked     bool // an asynchronous write without callback was issued: effect point unknown to the oracle
+	g             int64 // goroutine of the connection's first callback: its event loop (guarded by handler.mu)
+	inCb          int   // callbacks of this connection in progress (nesting on the owner goroutine is legitimate)
 }
 
 type handler struct {
@@ -135,8 +137,43 @@ func errSym(err error) string {
 
 // ---------------------------------------------------------------- callbacks
 
+// enter/leave: every callback of one stream connection runs on the goroutine of the event loop that owns it
+// (C04: callbacks of a connection are serialised on its loop), so no callback of a connection can start on
+// another goroutine -- in particular not while one is in progress
+func (h *handler) enter(ci *connInfo, cb string) {
+	if ci.udp {
+		return
+	}
+	g := goid()
+	h.mu.Lock()
+	if ci.g == 0 {
+		ci.g = g
+	}
+	own, busy := ci.g, ci.inCb
+	ci.inCb++
+	h.mu.Unlock()
+	if own != g {
+		what := "callback-on-foreign-goroutine"
+		if busy > 0 {
+			what = "callback-overlaps-callback"
+		}
+		h.rec.Fail("lifecycle", what, fmt.Sprintf("%s of cid %d ran on goroutine %d, its event loop is goroutine %d (%d callback(s) of it in progress)", cb, ci.cid, g, own, busy))
+	}
+}
+
+func (h *handler) leave(ci *connInfo) {
+	if ci.udp {
+		return
+	}
+	h.mu.Lock()
+	ci.inCb--
+	h.mu.Unlock()
+}
+
 func (h *handler) OnOpen(c gnet.Conn) (out []byte, action gnet.Action) {
 	ci := h.info(c)
+	h.enter(ci, "OnOpen")
+	defer h.leave(ci)
 	if ci.opened {
 		h.rec.Fail("lifecycle", "double-open", fmt.Sprintf("OnOpen twice for cid %d", ci.cid))
 	}
@@ -171,6 +208,8 @@ func (h *handler) OnTraffic(c gnet.Conn) gnet.Action {
 	if c.LocalAddr() != nil && c.LocalAddr().Network() == "udp" && h.cfg.udp {
 		return h.onUDP(c)
 	}
+	h.enter(ci, "OnTraffic")
+	defer h.leave(ci)
 	if !ci.opened {
 		h.rec.Fail("lifecycle", "traffic-before-open", fmt.Sprintf("cid %d", ci.cid))
 	}
@@ -219,6 +258,8 @@ func (h *handler) OnTraffic(c gnet.Conn) gnet.Action {
 
 func (h *handler) OnClose(c gnet.Conn, err error) gnet.Action {
 	ci := h.info(c)
+	h.enter(ci, "OnClose")
+	defer h.leave(ci)
 	h.rec.mu.Lock()
 	// the closing sweep: after a stop request / Shutdown action, or after the loop gave up on a fatal accept error
 	sweeping := h.rec.shutdown || h.rec.acceptFatal
@@ -494,6 +535,28 @@ func (h *handler) oneCall(ci *connInfo, cb string) {
 		return
 	}
 	wsz := h.rnd.Pick(h.cfg.writeSizes)
+	if h.cfg.loops > 1 && h.rnd.Chance(15) {
+		// EventLoop.Close of THIS loop for a connection that lives on ANOTHER loop: the loop does not know the
+		// connection, so the request is ignored -- in no case may it be carried out from here, on a goroutine
+		// that is not the owner's (oracle only: no system call, nothing in the model's trace)
+		me := goid()
+		var o *connInfo
+		h.mu.Lock()
+		for _, x := range h.all {
+			if x != ci && x.opened && !x.closed && !x.udp && x.g != 0 && x.g != me && x.c != nil {
+				o = x
+				break
+			}
+		}
+		h.mu.Unlock()
+		if o != nil {
+			err := ci.c.EventLoop().Close(o.c)
+			h.w.Hist("foreign-loop-close")
+			if err != nil {
+				h.rec.Fail("lifecycle", "foreign-close-error", fmt.Sprintf("EventLoop.Close for a connection of another loop returned %v", err))
+			}
+		}
+	}
 	if h.cfg.pCross > 0 && h.rnd.Chance(h.cfg.pCross) {
 		// act on another open connection of this loop from inside this callback
 		var others []*connInfo
